@@ -156,6 +156,30 @@ def run(ctx):
                 ctx.violation("oracle", det, site="fwer_minp")
         order = [int(i) for i in np.argsort(pf)]
         ops.append(f"fwer|{int(plus1)}|{name}|{rats(pv)}|{ints(order)}|{rows(D)}"); meta.append((det, out))
+    # buffers refilled in place with new contents between two calls: second result as on fresh arrays
+    for _ in range(ctx.n(40, 400)):
+        B = ctx.rng.randint(3, 12); j_ = ctx.rng.randint(2, 4); comb_ = ctx.rng.choice(["fisher", "tippett", "liptak"]); p1_ = ctx.rng.random() < 0.5
+        D1 = np.array([[ctx.rng.randint(0, 9) for _ in range(j_)] for _ in range(B)], dtype=float); D2 = np.array([[ctx.rng.randint(0, 9) for _ in range(j_)] for _ in range(B)], dtype=float)
+        q1 = np.array([ctx.rng.randint(1, 19) / 20 for _ in range(j_)]); q2 = np.array([ctx.rng.randint(1, 19) / 20 for _ in range(j_)])
+        bufD, bufp = D1.copy(), q1.copy()
+        ra = guarded(npc.fwer_minp, bufp, bufD, comb_, p1_)
+        bufD[...] = D2; bufp[...] = q2
+        rb = guarded(npc.fwer_minp, bufp, bufD, comb_, p1_); rf = guarded(npc.fwer_minp, q2.copy(), D2.copy(), comb_, p1_)
+        ctx.case(("refill", comb_, p1_, tuple(q1), tuple(q2), D1.tobytes(), D2.tobytes()), True); ctx.count("buffer-refilled-in-place")
+        if rb[0] != "ok" or rf[0] != "ok" or not np.array_equal(np.array(rb[1]), np.array(rf[1])):
+            ctx.violation("oracle", {"call": "fwer_minp", "combine": comb_, "plus1": p1_, "first": [q1.tolist(), D1.tolist()], "second": [q2.tolist(), D2.tolist()],
+                                     "issue": "fwer_minp on buffers refilled in place differs from fwer_minp on fresh arrays with the same contents",
+                                     "refilled": str(rb[1:])[:120], "fresh": str(rf[1:])[:120]}, site="fwer_minp")
+    # what one call handed back must not change when the function is called again (no shared result buffers)
+    for comb_ in ("fisher", "tippett", "liptak"):
+        D1 = np.array([[1., 2, 3], [2, 1, 1], [3, 3, 2], [0, 0, 0]]); D2 = D1[::-1].copy()
+        a = guarded(npc.fwer_minp, np.array([0.2, 0.5, 0.4]), D1, comb_, False)
+        keep = None if a[0] != "ok" else np.array(a[1], dtype=float).copy()
+        b = guarded(npc.fwer_minp, np.array([0.7, 0.1, 0.3]), D2, comb_, True)
+        ctx.case(("stable-result", comb_), True); ctx.count("result-stability")
+        if a[0] != "ok" or b[0] != "ok" or not np.array_equal(np.array(a[1], dtype=float), keep):
+            ctx.violation("oracle", {"combine": comb_, "issue": "the array returned by one call changed when fwer_minp was called again (shared result buffer)",
+                                     "first_now": str(a[1:])[:200], "first_then": None if keep is None else keep.tolist()}, site="fwer_minp")
     # rejected inputs
     for pvals, D in [([0.5], [[1.0]]), ([0.2, 0.3], [[1.0, 2.0, 3.0]]), ([0.2, 0.3, 0.4], [[1.0, 2.0]])]:
         r = guarded(npc.fwer_minp, np.array(pvals), np.array(D), "fisher")
